@@ -133,10 +133,12 @@ def decode : Charset → Bytes → Option Text
 
 /-! ## Parameter dictionaries -/
 
-/-- A single value as the handler sees it: text, or (image map only) an int. -/
+/-- A single value as the handler sees it: text, (image map only) an int, or (multipart file upload
+    only, see `UrlEncReq`) the `Part` object of the part with that wire index. -/
 inductive Atom where
   | str (s : Text)
   | int (n : Nat)
+  | part (idx : Nat)
   deriving DecidableEq, Repr
 
 /-- A dict value: a scalar, or a Python list. -/
@@ -360,7 +362,7 @@ inductive Outcome where
   | handler (kw : Params)
   /-- the handler was not called; the response has this status -/
   | status (code : Nat)
-  deriving Repr
+  deriving Repr, DecidableEq
 
 /-- `_do_respond` from `process_query_string` to the handler call. -/
 def handle (r : Req) : Outcome :=
